@@ -378,6 +378,10 @@ def plane_box(
     ldist = wp.dot(plane_normal, corner)
     cdist = center_dist + ldist
 
+    # skip corners on the far side of the box center (as mjc_PlaneBox): at most 4 contacts
+    if ldist > 0.0:
+      continue
+
     dist[i] = cdist
     pos[i] = corner + box_pos - 0.5 * plane_normal * cdist
 
